@@ -104,6 +104,7 @@ typedef struct sim_inst {
 	int tables_loaded;
 	int yyin_set;            /* the caller gave the scanner an input stream */
 	int yyin_src;            /* source id behind that stream */
+	int extra_set;           /* created with yylex_init_extra(this instance) */
 	void *priv;
 } sim_inst;
 
@@ -119,6 +120,8 @@ FILE *sim_src_file(int src);
 int sim_src_of_file(FILE *f);
 
 /* ---- allocation ---- */
+/* the scanner-supplied context of an allocator call: must be the running instance's own */
+void sim_check_extra(void *extra, int have_scanner);
 void *sim_alloc(size_t n);
 void *sim_realloc(void *p, size_t n);
 void sim_free(void *p);
